@@ -25,7 +25,9 @@ Case:
                                                                   also name the root(s), which belong to the lookup set anyway
          HOW = "abs" | "slash" | "dotdot" | "link" | "rel" (relative to the MIX's working directory, may start with ..) | "rellink"
          TYP = "str" | "path"
-  TEXT = {"g": bool (text does not parse), "gk": int, "secs": [{"stmts": [STMT..], "mode": MODE}] (two = service)}
+  TEXT = {"g": bool (text does not parse), "gk": int, "secs": [{"stmts": [STMT..], "mode": MODE}] (two = service),
+          "u": 1 | 2 | 3 (optional, with "g": true: the file cannot even be loaded - bytes that are not UTF-8, a truncated multi-byte
+               sequence, a DIRECTORY named like a definition file)}
   STMT = ["ref", name, major, minor] | ["prim", bits] | ["print", n] | ["bad", k];  MODE = ["sealed"] | ["extent", bits] | ["none"]
 
 Outcome: {"out": OUT, "out2": OUT?, "hist": [{"out": OUT, "nest": [..]}, ...] (one per history call), "inv": [descriptions of spellings / enumeration orders / hash seeds that changed the outcome],
@@ -34,6 +36,13 @@ Outcome: {"out": OUT, "out2": OUT?, "hist": [{"out": OUT, "nest": [..]}, ...] (o
       | {"res": "invalid" | "internal" | "foreign:<cls>", "prints": [...], "soft_cls": ..., "soft_path": ...}
 
 Oracles are plain Python over the abstract graph (`spec_eval`), they need neither the Lean model nor the library.
+
+Generators: gen_graph (dependency graphs; a fifth with version numbers of 1-3 digits, a third of the multi-root trees with nested
+namespaces called like another root), gen_twins (names differing by letter case only among names that sort between the spellings),
+gen_versions (version families; 40% with numbers of 1-3 digits and a port-ID that appears / disappears along the minor versions),
+gen_names (file-name shapes), gen_dirs / gen_dirs_universe (directory-argument sets, incl. namesakes nested inside a directory),
+gen_two_trees (several trees of one root namespace name holding the same relative paths, targets relative to working directories
+in and around them), gen_history (call sequences), gen_perturb (C19).
 """
 from __future__ import annotations
 
@@ -152,10 +161,29 @@ def build_tree(tmp: Path, case: dict) -> None:
         os.symlink(str(tmp / "/".join(d)), str(tmp / "links" / ("L%d" % i)), target_is_directory=True)
 
 
+# what cannot be loaded as text at all: bytes that are not UTF-8, a truncated multi-byte sequence, a directory named like a definition
+UNLOADABLE = {1: b"\xff\xfe\x00uint8 a\n@sealed\n", 2: b"# caf\xc3", 3: None}
+
+
 def write_file(tmp: Path, f: dict) -> None:
     p = tmp / file_rel(f)
     p.parent.mkdir(parents=True, exist_ok=True)
+    u = f["text"].get("u")
+    if u:
+        if UNLOADABLE[u] is None:
+            p.mkdir()
+        else:
+            p.write_bytes(UNLOADABLE[u])
+        return
     p.write_text(render_text(f["text"]))
+
+
+def remove_file(tmp: Path, f: dict) -> None:
+    p = tmp / file_rel(f)
+    if p.is_dir():
+        p.rmdir()
+    else:
+        p.unlink()
 
 
 def call_dirs(call: dict) -> typing.List[list]:
@@ -406,8 +434,9 @@ def spell_mix(tmp: Path, case: dict, mix: dict) -> typing.Optional[typing.Tuple[
     return "read_files", (ts, rs, ls), kw, cwd
 
 
-def gen_mix(rng: random.Random, call: dict, files: typing.List[dict]) -> dict:
-    """Every path-like argument in a FORM of its own, every element in a SPELLING of its own, elements repeated in other spellings."""
+def gen_mix(rng: random.Random, call: dict, files: typing.List[dict], cwd: typing.Optional[list] = None, target_hows: typing.Optional[list] = None) -> dict:
+    """Every path-like argument in a FORM of its own, every element in a SPELLING of its own, elements repeated in other spellings.
+    `cwd` / `target_hows` narrow the choice of the working directory / of the spellings of the targets."""
     def sp(hows):
         return [rng.choice(hows), rng.choice(["str", "str", "path"])]
 
@@ -441,6 +470,8 @@ def gen_mix(rng: random.Random, call: dict, files: typing.List[dict]) -> dict:
     # (a root of read_files spelled "." - the working directory IS the root - used to be excluded here: every relative target
     #  was lexically "relative to" Path("."), a bare ValueError escaped; repaired in /repo by 1e7d19c, recorded in known_findings.json)
     mix: dict = {"mix": 1, "cwd": rng.choice(cwds)}
+    if cwd is not None:
+        mix["cwd"] = list(cwd)
     lks = _uniq([list(x) for x in call["lookups"]])
     if call["fn"] == "ns":
         root = list(call["root"])
@@ -449,7 +480,7 @@ def gen_mix(rng: random.Random, call: dict, files: typing.List[dict]) -> dict:
         return mix
     tix = _uniq(list(call["targets"]))
     roots = _uniq([list(x) for x in call["roots"]])
-    mix["targets"] = build(tix, tix, FILE_HOWS, False)
+    mix["targets"] = build(tix, tix, target_hows or FILE_HOWS, False)
     mix["roots"] = build(roots, roots, DIR_HOWS, False)
     mix["lookups"] = build(lks, _uniq(lks + roots), DIR_HOWS, True)
     return mix
@@ -752,7 +783,7 @@ def run_on_tree(tmp: Path, case: dict) -> dict:
     if case.get("perturb"):
         p = case["perturb"]
         old = case["files"][p["idx"]]
-        (tmp / file_rel(old)).unlink()
+        remove_file(tmp, old)
         write_file(tmp, p["file"])
         case2 = dict(case)
         case2["files"] = list(case["files"])
@@ -789,8 +820,8 @@ def child_main() -> None:
 
 # ------------------------------------------------------------------------------------------------ independent oracle
 
-FN_RE = re.compile(r"^(?:(0|[1-9][0-9]*)\.)?([A-Za-z_][A-Za-z0-9_]*)\.(0|[1-9][0-9]*)\.(0|[1-9][0-9]*)\.(dsdl|uavcan)$")
-COMP_RE = re.compile(r"^[A-Za-z_][A-Za-z0-9_]*$")
+FN_RE = re.compile(r"^(?:(0|[1-9][0-9]*)\.)?([A-Za-z_][A-Za-z0-9_]*)\.(0|[1-9][0-9]*)\.(0|[1-9][0-9]*)\.(dsdl|uavcan)\Z")
+COMP_RE = re.compile(r"^[A-Za-z_][A-Za-z0-9_]*\Z")
 
 
 def parse_strict(fname: str):
@@ -822,7 +853,7 @@ def lenient_only(fname: str) -> bool:
         return False
     if not COMP_RE.match(short) or not all(python_int_accepts(x) for x in nums):
         return False
-    return not all(re.match(r"^[0-9]+$", x) for x in nums)  # leading zeros are left unjudged
+    return not all(re.fullmatch(r"[0-9]+", x) for x in nums)  # leading zeros are left unjudged ("$" would also match before a final line feed)
 
 
 class Invalid(Exception):
@@ -848,7 +879,7 @@ class SDef:
         self.leading_zero = False
         if self.parsed is None and is_def_file(f["fname"]):
             parts = f["fname"].split(".")[:-1]
-            self.leading_zero = len(parts) in (3, 4) and all(re.match(r"^[0-9]+$", x) for x in (parts[-2:] + (parts[:1] if len(parts) == 4 else [])))
+            self.leading_zero = len(parts) in (3, 4) and all(re.fullmatch(r"[0-9]+", x) for x in (parts[-2:] + (parts[:1] if len(parts) == 4 else [])))
         if self.wellformed:
             self.pid, short, self.major, self.minor = self.parsed
             self.ns = ".".join([self.dir[-1]] + list(f["sub"]))
@@ -914,7 +945,7 @@ def regulated(is_srv: bool, root_name: str, pid: int) -> bool:
 def spec_eval(files: typing.List[dict], call: dict) -> dict:
     """What the property statements demand for this call, from the abstract description only."""
     defs = [SDef(i, f) for i, f in enumerate(files)]
-    res: dict = {"res": "ok", "reason": None, "closure": set(), "lookup_malformed": False, "direct": [], "transitive": [], "targets": []}
+    res: dict = {"res": "ok", "reason": None, "closure": set(), "near": set(), "lookup_malformed": False, "direct": [], "transitive": [], "targets": []}
     if call["fn"] == "ns":
         dirs = [list(x) for x in call["lookups"]] + [list(call["root"])]
         allow = bool(call["allow_collision"])
@@ -955,8 +986,11 @@ def spec_eval(files: typing.List[dict], call: dict) -> dict:
         res["lookup_malformed"] = True
     lookup = [d for d in lookup if d.wellformed]
     keys = [d.key for d in targets]
-    # declarative closure: everything reachable through case-insensitive name + version matches
+    # declarative closure: everything reachable through references (names are case-sensitive: full name + version).  A lookup
+    # definition whose name differs from a written reference by letter case only is NOT referenced: its file name makes the
+    # reference an error, its text is nobody's business (`near`).
     clo = set(d.idx for d in targets)
+    near = set()
     work = list(targets)
     while work:
         d = work.pop()
@@ -967,10 +1001,14 @@ def spec_eval(files: typing.List[dict], call: dict) -> dict:
                 if st[0] == "ref":
                     full = st[1] if "." in st[1] else d.ns + "." + st[1]
                     for x in lookup:
-                        if x.name.lower() == full.lower() and (x.major, x.minor) == (st[2], st[3]) and x.idx not in clo:
-                            clo.add(x.idx)
-                            work.append(x)
+                        if x.name.lower() == full.lower() and (x.major, x.minor) == (st[2], st[3]):
+                            if x.name != full:
+                                near.add(x.idx)
+                            elif x.idx not in clo:
+                                clo.add(x.idx)
+                                work.append(x)
     res["closure"] = clo
+    res["near"] = near - clo
     if len(set(keys)) != len(keys):
         return fail("dupkey")
     memo: dict = {}
@@ -1085,12 +1123,17 @@ ROOT_LAYOUTS = [
     [["w0", "alpha"], ["w1", "alpha"]],
     [["w0", "uavcan"], ["w0", "beta"]],
     [["w0", "alpha"], ["w0", "beta"], ["w1", "alpha"]],
+    # a sibling whose name begins with the name of another root (reg next to reg_ext): as strings one path is a prefix of the other
+    [["w0", "alpha"], ["w0", "alpha_ext"]],
+    [["w0", "alpha"], ["w0", "alpha2"], ["w1", "beta"]],
 ]
 # namespace components that sort between type names and type names that sort after namespace components are included:
 # the result order is by FULL name, which differs from (namespace, short name) order exactly in such trees
 SUBS = [[], [], ["x"], ["y"], ["x", "z"], ["x", "y", "deep"], ["Bz"], ["Cx", "y"]]
 SHORTS = ["A", "B", "C", "D", "E", "F", "Msg", "Thing", "zed", "m_t"]
 VERSIONS = [(1, 0), (1, 0), (1, 1), (0, 1), (2, 0), (1, 2), (0, 3), (2, 5)]
+# one to three digits: numeric order ("newest first") is not the order of the decimal spellings
+VERSIONS_WIDE = [(1, 0), (1, 9), (1, 10), (0, 9), (0, 10), (0, 100), (9, 0), (10, 0), (100, 0), (2, 10), (2, 9), (10, 2), (9, 10)]
 
 
 def mk_text(stmts, mode, resp=None, g=False, gk=0):
@@ -1163,11 +1206,16 @@ def gen_graph(rng: random.Random, prop: str) -> dict:
     clean = rng.random() < 0.6  # no deliberately broken references / texts
     n = rng.randint(2, 9)
     pool_names = rng.sample(SHORTS, rng.randint(2, 5))
+    versions = VERSIONS_WIDE if rng.random() < 0.2 else VERSIONS
+    namesake_subs = len(layout) >= 2 and rng.random() < 0.3
     while len(files) < n:
         d = rng.choice(layout)
         sub = list(rng.choice(SUBS))
+        if namesake_subs and rng.random() < 0.4:
+            # a nested namespace called like ANOTHER root namespace of the call (acme/sensors next to the root sensors), or like its own root
+            sub = rng.choice([[], [], ["x"]]) + [rng.choice([e[-1] for e in layout if e[-1] != d[-1]] or [d[-1]]) if rng.random() < 0.8 else d[-1]] + rng.choice([[], [], ["y"]])
         short = rng.choice(pool_names)
-        ma, mi = rng.choice(VERSIONS)
+        ma, mi = rng.choice(versions)
         is_srv = rng.random() < 0.15
         pid = None
         if rng.random() < 0.25:
@@ -1320,6 +1368,13 @@ def add_variants(rng: random.Random, case: dict, k: int, mixes: int = 1) -> None
     # argument forms x spellings (MIX): drawn from a generator derived from the case's own seed (which came from `rng`), so that
     # the stream of trees and calls is the same with and without them
     mrng = random.Random("mix/%s/%d" % (case.get("enum_seed", 0), len(case["files"])))
+    call = case["call"]
+    if call["fn"] == "files" and "names" not in case["variants"] and mrng.random() < 0.7:
+        # a root namespace name that is also the name of a namespace nested in a target's root: the roots given by bare NAME
+        # (in the order of the call) must still designate the outermost directory of that name on the target's path
+        rn = {r[-1] for r in call["roots"]}
+        if any(c in rn for i in call["targets"] for c in case["files"][i]["sub"]):
+            case["variants"].append("names")
     for _ in range(mixes):
         case["variants"].append(gen_mix(mrng, case["call"], case["files"]))
     for k2, h in enumerate(case.get("history", [])):
@@ -1342,21 +1397,44 @@ def gen_versions(rng: random.Random, prop: str) -> dict:
         srv_pids = rng.sample([0, 1, 5, 100, 255, 256, 288, 300, 383, 511], 2)
         msg_pids = rng.sample(sorted({s + off for s in srv_pids for off in (0, 256, 512, 1024, 4096)} | {8191}), 3)
     allv = [(0, 1), (0, 2), (1, 0), (1, 1), (1, 2), (2, 0), (2, 1), (3, 0)]
+    # version numbers of one to three digits: the order of the numbers is not the order of their decimal spellings (9 < 10 < 100,
+    # "10" < "100" < "9"), and every rule that says "older" / "newer" / "same major" is about the numbers
+    wide = rng.random() < 0.4
+    if wide:
+        majors = rng.sample([0, 1, 1, 2, 9, 10, 99, 100, 255], rng.choice([1, 1, 2]))
+        minors = [0, 1, 2, 3, 9, 10, 11, 19, 20, 25, 99, 100, 101, 200, 255]
+        allv = sorted({(ma, mi) for ma in majors for mi in rng.sample(minors, rng.randint(2, 4)) if ma + mi > 0})
+        if not unreg and rng.random() < 0.4:
+            unreg = True
+            srv_pids = rng.sample([2, 9, 10, 11, 99, 100, 101, 300], 2)
+            msg_pids = rng.sample([2, 9, 10, 11, 99, 100, 101, 1000, 6200], 3)
     for short in rng.sample(SHORTS, rng.randint(1, 3)):
         sub = list(rng.choice([[], [], ["x"]]))
         base_srv = rng.random() < 0.3
         base = {}
-        for ma, mi in sorted(rng.sample(allv, rng.randint(1, 4))):
+        chosen = sorted(rng.sample(allv, min(len(allv), rng.randint(1, 4))))
+        for ma, mi in chosen:
             cfg = base.get(ma)
+            if cfg is not None and cfg.get("history"):
+                # the port-ID appears (allowed) or disappears (not allowed) at one point of the sequence of minor versions
+                cfg["seen"] += 1
+                cfg["pid"] = cfg["history"][1] if (cfg["history"][0] == "added") == (cfg["seen"] >= cfg["history"][2]) else None
             if cfg is None:
                 cfg = {"srv": base_srv if rng.random() < 0.9 else not base_srv,
                        "pid": rng.choice([None, None, "p"]), "modes": [gen_mode_c11(rng), gen_mode_c11(rng)],
                        "prims": [[rng.choice([8, 16, 32]) for _ in range(rng.randint(0, 2))], [rng.choice([8, 16]) for _ in range(rng.randint(0, 2))]]}
                 if cfg["pid"] == "p":
                     cfg["pid"] = rng.choice(srv_pids if cfg["srv"] else msg_pids)
+                mine = [v for v in chosen if v[0] == ma]
+                if wide and len(mine) >= 2 and rng.random() < 0.6:
+                    cfg["history"] = [rng.choice(["added", "added", "removed"]), rng.choice(srv_pids if cfg["srv"] else msg_pids), rng.randint(1, len(mine) - 1)]
+                    cfg["seen"] = 0
+                    cfg["pid"] = cfg["history"][1] if cfg["history"][0] == "removed" else None
                 base[ma] = cfg
             c = {"srv": cfg["srv"], "pid": cfg["pid"], "modes": [list(m) for m in cfg["modes"]], "prims": [list(p) for p in cfg["prims"]]}
             x = rng.random()
+            if cfg.get("history"):
+                x = 0.5 if x < 0.75 else (x - 0.75) * 1.6   # fewer of the other deviations, so that the port-ID history decides
             if x < 0.06:
                 c["srv"] = not c["srv"]
                 if c["pid"] is not None:
@@ -1409,6 +1487,10 @@ def gen_mode_c11(rng: random.Random) -> list:
 VALID_SHAPES = ["A.1.0.dsdl", "7000.A.1.0.dsdl", "Bc_d9.0.1.dsdl", "A.255.255.dsdl", "A.1.0.uavcan", "6200.Q.2.7.uavcan", "_x.1.0.dsdl", "A.10.20.dsdl"]
 MALFORMED = ["A.dsdl", "A.1.dsdl", "A.x.0.dsdl", "A.1.y.dsdl", "x.A.1.0.dsdl", "1.2.A.1.0.dsdl", "A..0.dsdl", "A.1.0..dsdl", ".1.0.dsdl",
              "A-B.1.0.dsdl", "1A.1.0.dsdl", "A.1.0.0.0.dsdl", "A.0x1.0.dsdl", "A.1e0.0.dsdl", "A.1.0.dsdl.dsdl", "A b.1.0.dsdl", "..dsdl", "A.-.0.dsdl"]
+# numerals and names with white space / control characters at either end (legal in POSIX file names; `$` of a regular expression
+# matches before a final line feed, `int()` and `str.strip()` drop them): none of these has the required shape
+MALFORMED += ["A.1.0\n.dsdl", "A.1\n.0.dsdl", "6201\n.A.1.0.dsdl", "A.\n1.0.dsdl", "A.1.0\t.dsdl", "A.1\r.0.dsdl", "A.1.0\x0b.dsdl", "A.1.0\x0c.dsdl",
+              "7000\t.A.1.0.dsdl", "A\n.1.0.dsdl", "A.1.0\n\n.dsdl", "A.1.0\x1f.dsdl"]
 LENIENT = ["A.1_0.0.dsdl", "A.+1.0.dsdl", "A. 1.0.dsdl", "A.١.0.dsdl", "7_0_0_0.A.1.0.dsdl", "A.1.-0.dsdl", "A.1.0 .dsdl", "+7000.A.1.0.dsdl", "A.1.０.dsdl"]
 IGNORED = ["A.1.0.dsdl.bak", "A.1.0.DSDL", "A.1.0.txt", "A.1.0.dsdl~", "README", "A.1.0.Uavcan"]
 
@@ -1462,7 +1544,8 @@ def gen_names(rng: random.Random, prop: str) -> dict:
 def gen_dirs(rng: random.Random, prop: str) -> dict:
     """Sets of root / lookup directories: nested, equal names, names equal up to letter case (C10 directory rule)."""
     pool = [["w0", "alpha"], ["w0", "beta"], ["w1", "alpha"], ["w1", "Alpha"], ["w1", "BETA"], ["w0", "alpha", "x"], ["w0", "alpha", "x", "z"],
-            ["w1", "gamma"], ["w0", "gamma"], ["w0"], ["w1", "gamma", "y"]]
+            ["w1", "gamma"], ["w0", "gamma"], ["w0"], ["w1", "gamma", "y"],
+            ["w0", "alpha", "alpha"], ["w0", "alpha", "x", "Alpha"], ["w1", "gamma", "y", "z", "gamma"]]   # namesakes nested inside
     dirs = rng.sample(pool, rng.randint(1, 4))
     root = dirs[0]
     files = []
@@ -1516,7 +1599,23 @@ def gen_dirs_universe(rng: random.Random, prop: str) -> dict:
     uni += [[w, swap_case(base)], ["w1" if w == "w0" else "w0", base], [w, "other"], [w, "other", base], [w]]
     n = rng.randint(2, 6)
     dirs: typing.List[list] = []
-    if rng.random() < 0.6:
+    if rng.random() < 0.3:
+        # a NAMESAKE nested inside a directory 1-3 levels down (a repository directory called like the namespace directory it
+        # contains: acme/acme, acme/drivers/acme), in the same or in another letter case; both the nesting rule and - when
+        # collisions are disallowed - the name rule apply to the pair, and the answer must be a rejection whichever is looked at first
+        anc = rng.choice([D, D, D + [s1], [w, "other", base], [w, base + hi[0]]])
+        name = rng.choice([anc[-1], anc[-1], anc[-1]] + case_spellings(anc[-1])[:2])
+        desc = anc + rng.choice([[], [], [s2], [s3], [s2, s3]]) + [name]
+        dirs = [anc, desc]
+        x = rng.random()
+        if x < 0.15:
+            dirs[0] = ["w2"] + anc[1:]                       # the same two names, not nested: accepted iff collisions are allowed
+        elif x < 0.25:
+            dirs[1] = desc[:-1] + [desc[-1] + "2"]           # nested, not a namesake
+        elif x < 0.35:
+            dirs.append(desc + [rng.choice([s1, name])])     # three levels
+        n = rng.randint(2, 4)
+    elif rng.random() < 0.6:
         # an ancestor, something inside it, and look-alike siblings of the ancestor in between (as strings)
         k = rng.choice([0, 0, 1])
         anc = uni[k]
@@ -1551,6 +1650,332 @@ def gen_dirs_universe(rng: random.Random, prop: str) -> dict:
         call = {"fn": "files", "targets": [rng.choice(mine)], "roots": [list(root)] + lks[:cut], "lookups": lks[cut:], "allow_unreg": False}
         rng.shuffle(call["roots"])
     return {"files": files, "call": call, "enum_seed": rng.randrange(10**6)}
+
+
+def gen_two_trees(rng: random.Random, prop: str) -> dict:
+    """Two or three directory trees that carry the SAME root namespace name (a vendored copy next to a working copy, in different
+    workspaces), with definition files at the same relative paths in several of them (contents differ), read_files with every tree
+    designated as a root in every order, and the targets spelled relative to working directories in and around the trees: a path
+    that exists relative to the working directory designates that file and no other, whichever tree is listed first (C15, C10)."""
+    name = rng.choice(["alpha", "vnd", "uavcan", "Lib"])
+    ws = rng.sample(["w0", "w1", "w2"], rng.choice([2, 2, 3]))
+    trees = [[w, name] for w in ws]
+    if rng.random() < 0.3:
+        trees[-1] = [ws[0], "deep", name]   # ... or two trees in one workspace, one of them a level further down
+    layout = [list(t) for t in trees]
+    extra = ["w0", "beta"]
+    files: typing.List[dict] = []
+    rels = []
+    for _ in range(rng.randint(1, 4)):
+        r = (tuple(rng.choice([[], ["x"], ["x", "y"], ["nav"], [name]])), rng.choice(["A", "B", "Fix", "m_t"]), rng.choice([(1, 0), (1, 0), (0, 1), (2, 10)]), rng.choice([None, None, 6200, 7200]))
+        if not any(r[:3] == q[:3] for q in rels):
+            rels.append(r)
+    std = name == "uavcan"
+    for sub, short, v, pid in rels:
+        if pid is not None:
+            pid = (7200 if std else 6200) + len(files)
+        holders = list(range(len(trees))) if rng.random() < 0.6 else rng.sample(range(len(trees)), rng.randint(1, len(trees)))
+        for k in holders:
+            files.append({"dir": list(trees[k]), "sub": list(sub), "fname": fname_of(short, v[0], v[1], pid), "text": mk_text([["prim", 8 * (k + 1)]], ["sealed"])})
+    if rng.random() < 0.3:
+        files.append({"dir": extra, "sub": [], "fname": "Other.1.0.dsdl", "text": mk_text([["prim", 8]], ["sealed"])})
+        layout.append(extra)
+    k = rng.randrange(len(trees))
+    mine = [i for i, f in enumerate(files) if f["dir"] == trees[k]]
+    if not mine:
+        k = trees.index(files[0]["dir"])
+        mine = [i for i, f in enumerate(files) if f["dir"] == trees[k]]
+    tix = rng.sample(mine, rng.randint(1, min(2, len(mine))))
+    if rng.random() < 0.15 and extra in layout:
+        tix.append(len(files) - 1)
+    roots = _uniq([list(files[i]["dir"]) for i in tix])
+    rest = [d for d in layout if d not in roots]
+    rng.shuffle(rest)
+    cut = len(rest) if rng.random() < 0.7 else rng.randint(0, len(rest))
+    roots += rest[:cut]
+    rng.shuffle(roots)
+    call = {"fn": "files", "targets": tix, "roots": roots, "lookups": rest[cut:], "allow_unreg": rng.random() < 0.3}
+    case = {"files": files, "call": call, "enum_seed": rng.randrange(10**6)}
+    add_variants(rng, case, 2)
+    t = list(trees[k])
+    for cwd in rng.sample([t[:-1], t[:-1], [], t, list(rng.choice(trees))[:-1], ["elsewhere"]], 2):
+        case["variants"].append(gen_mix(rng, call, files, cwd=cwd, target_hows=["rel", "rel", "rellink"]))
+    return case
+
+
+def case_spellings(s: str) -> typing.List[str]:
+    """The other spellings of an identifier that differ from it by letter case only."""
+    out: typing.List[str] = []
+    for c in (s.lower(), s.upper(), s.swapcase(), s[0].swapcase() + s[1:], s[:-1] + s[-1].swapcase(), s.capitalize()):
+        if c != s and c not in out:
+            out.append(c)
+    return out
+
+
+def names_between(a: str, b: str) -> typing.List[str]:
+    """Identifiers that sort strictly between two spellings of one name (code-point order): the capital letters sort below '_',
+    '_' sorts below the small letters, and every extension of the smaller spelling sorts below the greater one."""
+    a, b = min(a, b), max(a, b)
+    i = next(k for k in range(len(a)) if a[k] != b[k])
+    out = [a + "_2", a + "x", a[:i] + "_" + a[i + 1:] + "q", a[: i + 1] + "zz", b[: i] + "_r"]
+    if "A" <= a[i] < "Z":
+        out.append(a[:i] + chr(ord(a[i]) + 1) + a[i + 1:])
+    if "a" < b[i] <= "z":
+        out.append(b[:i] + chr(ord(b[i]) - 1) + b[i + 1:] + "w")
+    return [n for n in _uniq(out) if a < n < b and COMP_RE.match(n)]
+
+
+TWIN_SHORTS = ["Foo", "Msg", "Thing", "Ab", "Node", "m_t", "zed", "Q"]
+TWIN_COMPS = ["geo", "Nav", "io", "drv_a", "X"]
+TWIN_ROOTS = ["lib", "Geo", "vendor"]
+TWIN_VERSIONS = [(1, 0), (1, 0), (1, 1), (2, 0), (0, 1), (1, 10), (1, 9), (10, 0)]
+
+
+def gen_twins(rng: random.Random, prop: str) -> dict:
+    """Definitions whose full names differ by letter case only - in the short name, in a namespace component or in the root
+    namespace name; two or three spellings; equal, different or partly equal versions - placed among other definitions whose names
+    sort before, BETWEEN and after the spellings (code-point order: capitals < '_' < small letters), referenced exactly / in another
+    case / with a version only the other spelling has, relatively and absolutely, from targets and from dependencies of targets,
+    the twins living in the target root or in a lookup directory (C09).
+
+    The twins are leaves: a definition the twin's original depends on never spells the twin (EXCLUDED INPUT CLASS of gen_graph)."""
+    T = ["w0", "alpha"]
+    level = rng.choice(["short", "short", "component", "component", "root"])
+    if level == "root":
+        r = rng.choice(TWIN_ROOTS)
+        sp = [r] + rng.sample(case_spellings(r), min(rng.choice([1, 1, 2]), len(case_spellings(r))))
+        ws = rng.choice([["w1"] * 3, ["w1", "w2", "w1"], ["w1", "w2", "w3"]])
+        sub, short = list(rng.choice([[], [], ["x"]])), rng.choice(["P", "Msg", "m_t"])
+        members = [([ws[k], s], sub, short) for k, s in enumerate(sp)]
+        layout = [T] + _uniq([m[0] for m in members])
+    else:
+        home = rng.choice([T, T, ["w0", "lib"], ["w1", "lib"]])
+        layout = [T] if home == T else [T, home]
+        if level == "short":
+            s = rng.choice(TWIN_SHORTS)
+            sp = [s] + rng.sample(case_spellings(s), min(rng.choice([1, 1, 1, 2]), len(case_spellings(s))))
+            sub = list(rng.choice([[], [], ["x"], ["x", "y"]]))
+            members = [(home, sub, x) for x in sp]
+        else:
+            c = rng.choice(TWIN_COMPS)
+            sp = [c] + rng.sample(case_spellings(c), min(rng.choice([1, 1, 1, 2]), len(case_spellings(c))))
+            pre, post = list(rng.choice([[], [], ["x"]])), list(rng.choice([[], [], ["y"]]))
+            short = rng.choice(["P", "Msg", "m_t"])
+            members = [(home, pre + [x] + post, short) for x in sp]
+    rng.shuffle(members)
+    # versions per spelling
+    vmode = rng.choice(["same", "same", "diff", "diff", "mixed", "mixed"])
+    vs = rng.sample(sorted(set(TWIN_VERSIONS)), 3)
+    if vmode == "same":
+        vers = [[vs[0]] for _ in members]
+    elif vmode == "diff":
+        vers = [[vs[k % 3]] for k in range(len(members))]
+        if len(members) == 3:
+            vers[2] = [rng.choice(vs)]
+    else:
+        vers = [[vs[0]] + ([vs[1]] if rng.random() < 0.6 else []) for _ in members]
+        k = rng.randrange(len(members))
+        vers[k] = [rng.choice(vs[1:])] + ([vs[2]] if rng.random() < 0.4 else [])
+        vers[k] = sorted(set(vers[k]))
+    files: typing.List[dict] = []
+    types_l: typing.Set[str] = set()   # full type names in use, lower-cased
+    ns_x: typing.Set[str] = set()      # namespaces in use, as spelled
+
+    def full(d, sub, short):
+        return ".".join([d[-1]] + list(sub) + [short])
+
+    def free(d, sub, short):
+        """A further definition must not be one more case twin, nor turn a type name into a namespace name or vice versa."""
+        nss = [".".join([d[-1]] + list(sub[:k])) for k in range(len(sub) + 1)]
+        ns_l = {x.lower() for x in ns_x}
+        if full(d, sub, short).lower() in types_l | ns_l:
+            return False
+        return all(x.lower() not in types_l and (x in ns_x or x.lower() not in ns_l) for x in nss)
+
+    def add(d, sub, short, v, stmts):
+        files.append({"dir": list(d), "sub": list(sub), "fname": fname_of(short, v[0], v[1]), "text": mk_text(stmts, ["sealed"])})
+        types_l.add(full(d, sub, short).lower())
+        for k in range(len(sub) + 1):
+            ns_x.add(".".join([d[-1]] + list(sub[:k])))
+        return len(files) - 1
+
+    # a quarter of the cases: only ONE of the spellings exists, the others are merely written in references (near misses)
+    lonely = rng.random() < 0.25
+    for k, (d, sub, short) in enumerate(members):
+        if lonely and k > 0:
+            continue
+        for v in vers[k]:
+            add(d, sub, short, v, [["prim", 8 * (k + 1)]])   # one width per spelling: equal extents under one major
+    # other definitions: before, between and after the spellings
+    a, b = min(sp), max(sp)
+    btw = names_between(a, b)
+    rng.shuffle(btw)
+    cand: typing.List[tuple] = []
+    d0, sub0, short0 = members[0]
+    if level == "short":
+        cand += [(d0, sub0, n) for n in btw[:3]] + [(d0, sub0 + [n], "Q") for n in btw[3:5]]
+        cand += [(d0, sub0, "A0"), (d0, sub0, "zz9"), (d0, sub0[:-1], "Zed") if sub0 else (d0, ["Zz"], "Inner")]
+    elif level == "component":
+        j = next(k for k in range(len(sub0)) if sub0[k] in sp)
+        for n in btw[:3]:
+            cand.append((d0, sub0[:j] + [n] + sub0[j + 1:], short0))
+        cand += [(d0, sub0[:j], n) for n in btw[3:5]]
+        cand += [(d0, sub0[:j] + [a] + sub0[j + 1:], short0 + "x"), (d0, sub0[:j] + [b] + sub0[j + 1:], "A0"), (d0, sub0[:j], "Zed"), (d0, sub0[:j], "A0"), (d0, sub0[:j], "zz9")]
+    else:
+        ds = sorted(m[0] for m in members)
+        cand += [(ds[0], sub0, short0 + "x"), (ds[-1], sub0, "A0"), (ds[0], [], "Zed"), (T, [], "Mid"), (T, ["x"], "Mid")]
+    rng.shuffle(cand)
+    for d, sub, short in cand[: rng.choice([0, 1, 2, 2, 3, 4])]:
+        if free(d, sub, short):
+            add(d, sub, short, (1, 0), [["prim", 8]])
+    # referrers
+    every_v = sorted({v for l in vers for v in l})
+    fn = rng.choice(["ns", "ns", "files"])
+    dep_home = [x for x in layout if x != T] or [["w0", "beta"]]
+    tops: typing.List[int] = []
+    names = ["User", "aUser", "Hub", "M", "zTop", "B", "_u"]
+    rng.shuffle(names)
+    for q in range(rng.choice([1, 1, 2, 3])):
+        k = rng.randrange(len(members))
+        d, sub, short = members[k]
+        x = rng.random()
+        v = rng.choice(vers[k]) if x < 0.6 else rng.choice(every_v) if x < 0.93 else (every_v[-1][0], every_v[-1][1] + 5)
+        via_dep = rng.random() < 0.4
+        same_ns = rng.random() < 0.4
+        top_dir = T if fn == "ns" else rng.choice(layout)
+        # the definition that writes the reference: in the namespace of the twin (then the reference may be relative) or elsewhere
+        if via_dep:
+            w_dir = d if same_ns else rng.choice(dep_home)
+        else:
+            w_dir = d if (same_ns and (fn == "files" or d == T)) else top_dir
+        w_sub = list(sub) if (w_dir == d and same_ns) else list(rng.choice([[], ["u"]]))
+        ref_name = short if (w_dir == d and w_sub == list(sub) and rng.random() < 0.7) else full(d, sub, short)
+        w_short = names[q] + ("Dep" if via_dep else "")
+        if not free(w_dir, w_sub, w_short):
+            continue
+        w = add(w_dir, w_sub, w_short, (1, 0), [["ref", ref_name, v[0], v[1]]] + ([["prim", 8]] if rng.random() < 0.5 else []))
+        if not via_dep:
+            tops.append(w)
+            continue
+        u_short = names[q] + "Top"
+        if not free(top_dir, [], u_short):
+            continue
+        tops.append(add(top_dir, [], u_short, (1, 0), [["ref", full(w_dir, w_sub, w_short), 1, 0]]))
+    for d in dep_home:
+        if d not in layout and any(f["dir"] == d for f in files):
+            layout.append(d)
+    if not tops:
+        tops.append(add(T, [], "Plain", (1, 0), [["prim", 8]]))
+    others = [d for d in layout if d != T]
+    if level == "root" and rng.random() < 0.12 and not lonely:
+        gone = rng.choice([m[0] for m in members])
+        if gone in others:
+            others.remove(gone)   # only one spelling is visible
+    if fn == "ns":
+        rng.shuffle(others)
+        call = {"fn": "ns", "root": list(T), "lookups": [list(x) for x in others], "allow_collision": True, "allow_unreg": False}
+    else:
+        tix = rng.sample(tops, rng.randint(1, len(tops))) if rng.random() < 0.4 else list(tops)
+        roots = _uniq([list(files[i]["dir"]) for i in tix])
+        rest = [list(d) for d in [T] + others if list(d) not in roots]
+        rng.shuffle(rest)
+        cut = rng.randint(0, len(rest))
+        roots += rest[:cut]
+        rng.shuffle(roots)
+        call = {"fn": "files", "targets": tix, "roots": roots, "lookups": rest[cut:], "allow_unreg": False}
+    return {"files": files, "call": call, "enum_seed": rng.randrange(10**6)}
+
+
+def twin_features(case: dict) -> typing.Iterable[str]:
+    """Names that differ by letter case only among the definitions the call can see, and what sorts between them."""
+    dirs = call_dirs(case["call"]) + ([list(case["files"][i]["dir"]) for i in case["call"]["targets"]] if case["call"]["fn"] == "files" else [])
+    defs = [d for d in (SDef(i, f) for i, f in enumerate(case["files"]) if is_def_file(f["fname"])) if d.wellformed and d.dir in dirs]
+    groups: typing.Dict[str, typing.List[SDef]] = {}
+    for d in defs:
+        groups.setdefault(d.name.lower(), []).append(d)
+    for low, g in groups.items():
+        sp = sorted({d.name for d in g})
+        if len(sp) < 2:
+            continue
+        yield "case-twins:%d-spellings" % min(len(sp), 3)
+        diff = [k for k in range(len(sp[0].split("."))) if len({s.split(".")[k] for s in sp}) > 1]
+        n = len(sp[0].split("."))
+        yield "case-twins:in-" + ("root-name" if 0 in diff else "short-name" if diff == [n - 1] else "namespace-component")
+        vs = [{(d.major, d.minor) for d in g if d.name == s} for s in sp]
+        yield "case-twins:versions-" + ("equal" if all(v == vs[0] for v in vs) else "disjoint" if not set.intersection(*vs) else "overlapping")
+        mid = [d for d in defs if sp[0] < d.name < sp[-1] and d.name.lower() != low]
+        yield "case-twins:" + ("separated-by-%d-other-name%s" % (min(len({d.name for d in mid}), 3), "s" if len({d.name for d in mid}) != 1 else "") if mid else "adjacent-in-name-order")
+        for d in defs:
+            if d.text.get("g"):
+                continue
+            for sec in d.text["secs"]:
+                for st in sec["stmts"]:
+                    if st[0] == "ref" and (st[1] if "." in st[1] else d.ns + "." + st[1]).lower() == low:
+                        fullname = st[1] if "." in st[1] else d.ns + "." + st[1]
+                        hit = [x for x in g if (x.major, x.minor) == (st[2], st[3])]
+                        where = "target" if (case["call"]["fn"] == "ns" and d.dir == list(case["call"]["root"])) or (case["call"]["fn"] == "files" and d.idx in case["call"]["targets"]) else "dependency"
+                        yield "case-twins:referenced-from-" + where
+                        yield "case-twins:reference-" + ("unambiguous" if len(hit) == 1 and hit[0].name == fullname else
+                                                         "to-a-version-of-the-other-spelling" if len(hit) == 1 else "ambiguous" if hit else "no-such-version")
+                        if mid:
+                            yield "case-twins:separated+reference-" + ("unambiguous" if len(hit) == 1 and hit[0].name == fullname else "ambiguous" if len(hit) > 1 else "other")
+
+
+def perturb_features(case: dict) -> typing.Iterable[str]:
+    """What the replaced definition is to the closure of the targets, before and after, and the state of its new text."""
+    p = case["perturb"]
+    i, new = p["idx"], p["file"]
+    files2 = list(case["files"])
+    files2[i] = new
+    exp, exp2 = spec_eval(case["files"], case["call"]), spec_eval(files2, case["call"])
+    inside = i in exp["closure"] or i in exp2["closure"] or i in exp["targets"] or i in exp2["targets"]
+    yield "perturb:" + ("inside-the-closure" if inside else "outside-the-closure")
+    if inside:
+        return
+    if i in exp["near"] or i in exp2["near"]:
+        yield "perturb:outside:name-differs-from-a-reference-by-letter-case-only"
+    t = new["text"]
+    if t.get("u"):
+        yield "perturb:new-text:" + ("a-directory-named-like-a-definition" if t["u"] == 3 else "bytes-that-are-not-text")
+    elif t.get("g"):
+        yield "perturb:new-text:does-not-parse"
+    elif t != case["files"][i]["text"]:
+        yield "perturb:new-text:other-statements"
+    d2 = SDef(i, new)
+    if d2.wellformed and file_rel(new) != file_rel(case["files"][i]):
+        members = [SDef(j, files2[j]) for j in sorted(set(exp2["closure"]) | set(exp2["targets"]))]
+        for m in members:
+            if not m.wellformed or m.name != d2.name:
+                continue
+            if (m.major, m.minor) == (d2.major, d2.minor):
+                yield "perturb:outside:becomes-namesake-of-a-closure-member:" + ("same-directory" if m.dir == d2.dir else "other-directory-of-the-root-name")
+            else:
+                yield "perturb:outside:becomes-sibling-version-of-a-closure-member"
+        if d2.pid is not None and any(m.wellformed and m.pid == d2.pid for m in members):
+            yield "perturb:outside:gets-the-port-id-of-a-closure-member"
+
+
+def version_features(case: dict) -> typing.Iterable[str]:
+    """Version numbers and port-IDs of more than one digit; pairs whose numeric order is not the order of their spellings."""
+    defs = [d for d in (SDef(i, f) for i, f in enumerate(case["files"]) if is_def_file(f["fname"])) if d.wellformed]
+    if any(d.major >= 10 or d.minor >= 10 for d in defs):
+        yield "versions:multi-digit"
+    if any(d.pid is not None and d.pid < 1000 for d in defs):
+        yield "port-id:1-3-digits"
+    fams: typing.Dict[tuple, typing.List[SDef]] = {}
+    for d in defs:
+        fams.setdefault((d.dir[-1], d.name), []).append(d)
+    for g in fams.values():
+        for a in g:
+            for b in g:
+                if a.major == b.major and a.minor < b.minor:
+                    inv = str(a.minor) > str(b.minor)
+                    if inv:
+                        yield "versions:minors-of-one-major-whose-text-order-is-not-numeric-order"
+                    if (a.pid is None) != (b.pid is None):
+                        yield "versions:port-id-%s-in-newer-minor%s" % ("added" if a.pid is None else "removed", ":text-order-inverted" if inv else "")
+                if a.major < b.major and str(a.major) > str(b.major):
+                    yield "versions:majors-whose-text-order-is-not-numeric-order"
 
 
 def prefix_related(a: list, b: list) -> bool:
@@ -1610,54 +2035,113 @@ def gen_history(rng: random.Random, case: dict) -> None:
         case["history"].append({"call": c, "variant": rng.choice(names) if rng.random() < 0.5 else "base"})
 
 
-def gen_perturb(rng: random.Random, case: dict) -> None:
-    """Replace one definition (usually outside the dependency closure of the targets) by something else (C19)."""
-    files, call = case["files"], case["call"]
-    exp = spec_eval(files, call)
-    cand = [i for i, f in enumerate(files) if is_def_file(f["fname"]) and parse_strict(f["fname"])]
-    outside = [i for i in cand if i not in exp["closure"] and i not in exp["targets"]]
-    if not cand:
-        return
-    idx = rng.choice(outside) if outside and rng.random() < 0.9 else rng.choice(cand)
-    f = files[idx]
-    t = json.loads(json.dumps(f["text"]))
-    new = {"dir": f["dir"], "sub": f["sub"], "fname": f["fname"], "text": t}
-    x = rng.random()
-    if x < 0.2:
+def spoil_text(rng: random.Random, t: dict, idx: int, may_switch_kind: bool, x: typing.Optional[float] = None) -> None:
+    """One state of badness of a definition text: does not parse, cannot even be loaded, breaks a rule, prints, dangles."""
+    x = rng.random() if x is None else x
+    if x < 0.12:
         t["g"], t["gk"] = True, rng.randrange(4)
-    elif x < 0.35:
+    elif x < 0.22:
+        t["g"], t["gk"], t["u"] = True, 0, rng.choice([1, 2, 3])   # undecodable bytes / a directory named like the definition
+    elif x < 0.37:
         s = t["secs"][rng.randrange(len(t["secs"]))]["stmts"]
         s.insert(rng.randint(0, len(s)), ["bad", rng.randrange(4)])
-    elif x < 0.5:
+    elif x < 0.52:
         s = t["secs"][0]["stmts"]
         s.insert(rng.randint(0, len(s)), ["print", 7000 + idx])
-    elif x < 0.58:
+    elif x < 0.62:
         t["secs"][0]["mode"] = ["none"]
-    elif x < 0.66 and idx in outside:
+    elif x < 0.72 and may_switch_kind:
         if len(t["secs"]) == 1:
             t["secs"].append({"stmts": [], "mode": ["sealed"]})
         else:
             t["secs"].pop()
-    elif x < 0.74:
+    elif x < 0.84:
         m = t["secs"][0]["mode"]
         t["secs"][0]["mode"] = ["extent", 4096] if m[0] == "sealed" else ["sealed"]
-    elif x < 0.80:
+    else:
         t["secs"][0]["stmts"].append(["ref", "nowhere.Missing", 1, 0])
+
+
+def gen_perturb(rng: random.Random, case: dict) -> None:
+    """Replace one definition (usually outside the dependency closure of the targets) by something else (C19): another text in
+    any state of badness, or another file name - also one that makes it a NAMESAKE (same full name and version: a port-ID added or
+    dropped, the other extension, a second directory of the same root namespace name), a sibling version or a port-ID twin of a
+    member of the closure.  Definitions whose name differs from a written reference by letter case only are outside the closure
+    and preferred when there are any (their text changes, never their name: the name is what makes the reference an error)."""
+    files, call = case["files"], case["call"]
+    exp = spec_eval(files, call)
+    cand = [i for i, f in enumerate(files) if is_def_file(f["fname"]) and parse_strict(f["fname"])]
+    outside = [i for i in cand if i not in exp["closure"] and i not in exp["targets"]]
+    near = [i for i in outside if i in exp["near"]]
+    if not cand:
+        return
+    idx = rng.choice(outside) if outside and rng.random() < 0.9 else rng.choice(cand)
+    if near and rng.random() < 0.6:
+        idx = rng.choice(near)
+    f = files[idx]
+    t = json.loads(json.dumps(f["text"]))
+    new = {"dir": f["dir"], "sub": f["sub"], "fname": f["fname"], "text": t}
+    x = rng.random()
+    if idx in near:
+        x *= 0.8
+    members = [SDef(i, files[i]) for i in sorted(set(exp["closure"]) | set(exp["targets"])) if i != idx]
+    members = [m for m in members if m.wellformed]
+    related = bool(members) and idx in outside and idx not in near and rng.random() < 0.2
+    if x < 0.8 and not related:
+        spoil_text(rng, t, idx, idx in outside, x / 0.8)
     else:
         p = parse_strict(f["fname"])
         y = rng.random()
         others = [parse_strict(g["fname"]) for g in files if parse_strict(g["fname"])]
-        if y < 0.4:
+        if related or (y < 0.3 and members and idx in outside):
+            # related to a member of the closure: namesake / sibling version / the same port-ID.  A member that is written in a
+            # reference would make its namesake a second candidate of that reference (inside the closure), hence the preference
+            # for members nobody refers to (targets)
+            written = set()
+            for q in members:
+                if not q.text.get("g"):
+                    written |= {((st[1] if "." in st[1] else q.ns + "." + st[1]).lower(), st[2], st[3]) for sec in q.text["secs"] for st in sec["stmts"] if st[0] == "ref"}
+            unref = [q for q in members if (q.name.lower(), q.major, q.minor) not in written]
+            m = rng.choice(unref) if unref and rng.random() < 0.8 else rng.choice(members)
+            mp = parse_strict(m.f["fname"])
+            kind = rng.choice(["namesake-pid", "namesake-ext", "namesake-dir", "sibling", "sibling", "port-id"])
+            std = m.dir[-1] in ("uavcan", "cyphal")
+            is_srv = len(m.text["secs"]) == 2
+            some_pid = (400 if std else 300) if is_srv else (7300 if std else 6300)
+            ext = m.f["fname"].rsplit(".", 1)[1]
+            new["dir"], new["sub"] = list(m.dir), list(m.f["sub"])
+            if kind == "namesake-pid":
+                new["fname"] = fname_of(mp[1], mp[2], mp[3], None if mp[0] is not None else some_pid, ext)
+            elif kind == "namesake-ext":
+                new["fname"] = fname_of(mp[1], mp[2], mp[3], mp[0], "uavcan" if ext == "dsdl" else "dsdl")
+            elif kind == "namesake-dir":
+                twins = [d for d in call_dirs(call) if d[-1] == m.dir[-1] and d != m.dir]
+                if twins:
+                    new["dir"] = list(rng.choice(twins))
+                    new["fname"] = fname_of(mp[1], mp[2], mp[3], rng.choice([mp[0], None]), ext)
+                else:
+                    new["fname"] = fname_of(mp[1], mp[2], mp[3], None if mp[0] is not None else some_pid, ext)
+            elif kind == "sibling":
+                new["fname"] = fname_of(mp[1], mp[2], rng.choice([v for v in (0, 1, 2, 3, 9, 10) if v != mp[3] and mp[2] + v > 0]), rng.choice([mp[0], None, some_pid]), ext)
+            else:
+                new["dir"], new["sub"] = f["dir"], f["sub"]
+                new["fname"] = fname_of(p[1], p[2], p[3], mp[0] if mp[0] is not None else some_pid)
+            z = rng.random()
+            if z < 0.4:
+                t["g"], t["gk"], t["u"] = True, 0, rng.choice([1, 2, 3])
+            elif z < 0.8:
+                spoil_text(rng, t, idx, True)
+        elif y < 0.55:
             pids = [o[0] for o in others if o[0] is not None] or [6200]
             new["fname"] = fname_of(p[1], p[2], p[3], rng.choice(pids))
-        elif y < 0.8:
+        elif y < 0.85:
             new["fname"] = fname_of(p[1], rng.choice([p[2], 0, 1, 2]), rng.choice([0, 1, 2, 3]), p[0])
-        elif y < 0.9:
+        elif y < 0.91:
             new["fname"] = fname_of(rng.choice(SHORTS), p[2], p[3], p[0])
         else:
             new["fname"] = rng.choice(MALFORMED[:8])
         if any(file_rel(g) == file_rel(new) for j, g in enumerate(files) if j != idx):
-            new["fname"] = f["fname"]
+            new["dir"], new["sub"], new["fname"] = f["dir"], f["sub"], f["fname"]
             t["g"] = True
     case["perturb"] = {"idx": idx, "file": new}
 
@@ -1691,22 +2175,28 @@ class NsSuite(common.Suite):
                 c = gen_versions(rng, prop) if x < 0.85 else gen_graph(rng, prop)
                 add_variants(rng, c, 1)
             elif prop == "C15":
-                c = gen_names(rng, prop) if x < 0.8 else gen_graph(rng, prop)
+                if x >= 0.9:
+                    out.append(gen_two_trees(rng, prop))   # (brings its own spellings)
+                    continue
+                c = gen_names(rng, prop) if x < 0.72 else gen_graph(rng, prop)
                 if rng.random() < 0.35:
                     gen_history(rng, c)
                 add_variants(rng, c, 4)
             elif prop == "C10":
-                c = (gen_dirs(rng, prop) if x < 0.15 else gen_dirs_universe(rng, prop)) if x < 0.3 else gen_graph(rng, prop)
-                if x >= 0.3 and rng.random() < 0.08:
+                if x >= 0.95:
+                    out.append(gen_two_trees(rng, prop))
+                    continue
+                c = (gen_dirs(rng, prop) if x < 0.15 else gen_dirs_universe(rng, prop)) if x < 0.3 else gen_twins(rng, prop) if x >= 0.91 else gen_graph(rng, prop)
+                if 0.3 <= x < 0.91 and rng.random() < 0.08:
                     gen_history(rng, c)
                 add_variants(rng, c, 3)
             elif prop == "C19":
-                c = gen_graph(rng, prop) if x < 0.85 else gen_versions(rng, prop)
+                c = gen_graph(rng, prop) if x < 0.75 else gen_versions(rng, prop) if x < 0.87 else gen_twins(rng, prop)
                 gen_perturb(rng, c)
                 c["variants"] = []
             else:
-                c = gen_graph(rng, prop)
-                if rng.random() < 0.08:
+                c = gen_graph(rng, prop) if x < 0.8 else gen_twins(rng, prop)
+                if x < 0.8 and rng.random() < 0.08:
                     gen_history(rng, c)
                 add_variants(rng, c, 2)
             out.append(c)
@@ -1751,6 +2241,21 @@ class NsSuite(common.Suite):
             # promotion: dependency first pulled in transitively, later a target itself
             out.append(fl([F(A, [], "U.2.0.dsdl", S(["ref", "alpha.U", 1, 0], ["print", 5])), F(A, [], "U.1.0.dsdl", S(["print", 6])), F(A, [], "V.1.0.dsdl", S())], [0, 1], [A]))
             out.append(fl([F(A, [], "U.2.0.dsdl", S(["ref", "alpha.U", 1, 0])), F(A, [], "U.3.0.dsdl", S(["ref", "alpha.U", 1, 0])), F(A, [], "U.1.0.dsdl", S(["print", 6]))], [0, 1], [A]))
+        if prop == "C09":
+            # names differing by letter case only, with other names sorting between the spellings (capitals < '_' < small letters);
+            # equal versions: every reference is ambiguous; different versions: every exact reference is fine
+            L = ["w1", "lib"]
+            for va, vb in (((1, 0), (1, 0)), ((1, 0), (2, 0)), ((1, 10), (1, 9))):
+                for between in (["Goo"], ["Foo_2", "_x"], []):
+                    for ref in (["alpha.Foo"] + list(va), ["alpha.foo"] + list(vb), ["foo"] + list(vb)):
+                        fs = [F(A, [], "User.1.0.dsdl", S(["ref"] + ref)), F(A, [], fname_of("Foo", *va), S(["prim", 8])), F(A, [], fname_of("foo", *vb), S(["prim", 16]))]
+                        fs += [F(A, [], fname_of(b, 1, 0), S()) for b in between]
+                        out.append(ns(fs, variants=["rel"]))
+                # ... in a namespace component, in a lookup directory, referenced from a dependency of the target
+                fs = [F(A, [], "Top.1.0.dsdl", S(["ref", "lib.Dep", 1, 0])), F(L, [], "Dep.1.0.dsdl", S(["ref", "lib.geo.P", vb[0], vb[1]])),
+                      F(L, ["GEO"], fname_of("P", *va), S(["prim", 8])), F(L, ["geo"], fname_of("P", *vb), S(["prim", 16])), F(L, [], "Zed.1.0.dsdl", S()), F(L, ["GEO"], "Q.1.0.dsdl", S())]
+                out.append(ns(fs, lookups=[L], variants=["link"]))
+                out.append(fl(fs, [0], [A], [L], variants=("dup", "linkroots")))
         if prop in ("C09", "C10", "C15"):
             # every path-like argument in every admissible form x every spelling, one argument at a time (small scope, exhaustive)
             g_ab = [F(A, [], "A.1.0.dsdl", S(["ref", "B", 1, 0], ["ref", "beta.D", 2, 1])), F(A, ["x"], "B.1.0.dsdl", S(["ref", "alpha.B", 1, 0], ["print", 1])),
@@ -1773,6 +2278,24 @@ class NsSuite(common.Suite):
             out.append(ns([F(A, [], "A.1.0.dsdl", S())], lookups=[["w0", "alpha", "x"]]))
             out.append(ns([F(A, [], "A.1.0.dsdl", S()), F(["w1", "Alpha"], [], "A.1.0.dsdl", S())], lookups=[["w1", "Alpha"]], allow_collision=False))
             out.append(ns([F(A, [], "A.1.0.dsdl", S()), F(["w1", "Alpha"], [], "A.1.0.dsdl", S())], lookups=[["w1", "Alpha"]], allow_collision=True))
+            # a namesake nested inside a directory (1-3 levels down, either role, both positions of the collision switch): always rejected
+            for inner in (A + ["alpha"], A + ["x", "alpha"], A + ["x", "y", "Alpha"]):
+                for allow in (True, False):
+                    g = [F(A, [], "A.1.0.dsdl", S()), F(A, inner[2:], "B.1.0.dsdl", S())]
+                    out.append(ns(g, root=A, lookups=[inner], allow_collision=allow, variants=["link", "reorder"]))
+                    out.append(ns(g, root=B, lookups=[inner, A], allow_collision=allow, variants=["dup"]))
+                    out.append(ns([F(inner, [], "B.1.0.dsdl", S())], root=inner, lookups=[A], allow_collision=allow, variants=["rel"]))
+                out.append(fl([F(A, [], "A.1.0.dsdl", S()), F(A, inner[2:], "B.1.0.dsdl", S())], [0], [A], [inner], variants=("dup", "slash")))
+            # ... and the same names side by side: accepted iff collisions are allowed
+            out.append(ns([F(A, [], "A.1.0.dsdl", S())], lookups=[["w1", "x", "alpha"]], allow_collision=True, variants=["link"]))
+            out.append(ns([F(A, [], "A.1.0.dsdl", S())], lookups=[["w1", "x", "alpha"]], allow_collision=False, variants=["link"]))
+            # a root namespace name that is also the name of a namespace nested in another root: bare names in both orders
+            g = [F(A, ["beta"], "P.1.0.dsdl", S(["ref", "alpha.St", 1, 0])), F(A, [], "St.1.0.dsdl", S()), F(B, [], "T.1.0.dsdl", S())]
+            out.append(fl(g, [0, 2], [A, B], variants=("names",)))
+            out.append(fl(g, [0, 2], [B, A], variants=("names",)))
+            out.append(fl(g, [0], [B, A], variants=("names", "linkfiles")))
+            # version numbers of 1-3 digits: newest first is about the numbers
+            out.append(ns([F(A, [], "V.1.9.dsdl", S()), F(A, [], "V.1.10.dsdl", S()), F(A, [], "V.1.100.dsdl", S()), F(A, [], "V.10.0.dsdl", S()), F(A, [], "V.9.0.dsdl", S()), F(A, [], "V.100.1.dsdl", S())]))
             # look-alike siblings: as strings they sort between a directory and what lies inside it; as paths they are unrelated
             V = ["w0", "vendor"]
             for tail in ("-ext", "+legacy", ".old", " copy", "_v2"):
@@ -1782,6 +2305,7 @@ class NsSuite(common.Suite):
                 out.append(fl([F(V + ["sub", "deep"], [], "C.1.0.dsdl", S())], [0], [V + ["sub", "deep"], sib], [V], variants=("dup", "slash")))
         if prop == "C11":
             E = lambda n: mk_text([], ["extent", n])  # noqa: E731
+            Sv2 = mk_text([], ["sealed"], {"stmts": [], "mode": ["sealed"]})
             out.append(ns([F(A, [], "6200.A.1.0.dsdl", S()), F(A, [], "6200.B.1.0.dsdl", S())]))
             out.append(ns([F(A, [], "6200.A.1.0.dsdl", S()), F(A, [], "6200.A.2.0.dsdl", S())]))
             out.append(ns([F(A, [], "6200.A.0.1.dsdl", S()), F(A, [], "6200.A.2.0.dsdl", S())]))
@@ -1796,6 +2320,13 @@ class NsSuite(common.Suite):
                            F(A, [], "300.A.1.1.dsdl", mk_text([], ["sealed"], {"stmts": [], "mode": ["extent", 128]}))]))
             out.append(ns([F(A, [], "300.A.1.0.dsdl", mk_text([], ["sealed"], {"stmts": [], "mode": ["sealed"]})), F(A, [], "6200.B.1.0.dsdl", S()),
                            F(A, [], "300.C.1.0.dsdl", mk_text([], ["sealed"], {"stmts": [], "mode": ["sealed"]}))]))
+            # minor versions of 1-3 digits: "older" / "newer" is about the numbers, a port-ID may be added but never removed
+            for lo, hi in ((9, 10), (2, 10), (99, 100), (3, 255), (10, 11), (1, 2)):
+                for ma in (1, 0, 10):
+                    out.append(ns([F(A, [], "A.%d.%d.dsdl" % (ma, lo), S()), F(A, [], "6200.A.%d.%d.dsdl" % (ma, hi), S())], variants=[]))
+                    out.append(ns([F(A, [], "6200.A.%d.%d.dsdl" % (ma, lo), S()), F(A, [], "A.%d.%d.dsdl" % (ma, hi), S())], variants=[]))
+                out.append(ns([F(A, [], "300.A.1.%d.dsdl" % lo, Sv2), F(A, [], "A.1.%d.dsdl" % hi, Sv2)], variants=[]))
+                out.append(ns([F(A, [], "A.1.%d.dsdl" % lo, Sv2), F(A, [], "300.A.1.%d.dsdl" % hi, Sv2)], variants=[]))
             # violation among the lookup definitions that are pulled in
             out.append(ns([F(A, [], "U.1.0.dsdl", S(["ref", "beta.A", 1, 0], ["ref", "beta.A", 1, 1])), F(B, [], "A.1.0.dsdl", E(64)), F(B, [], "A.1.1.dsdl", E(72))], lookups=[B]))
             out.append(ns([F(A, [], "U.1.0.dsdl", S(["ref", "beta.A", 1, 0])), F(B, [], "A.1.0.dsdl", E(64)), F(B, [], "A.1.1.dsdl", E(72))], lookups=[B]))
@@ -1804,6 +2335,16 @@ class NsSuite(common.Suite):
             out.append(fl([F(["w0", "gods"], ["norse"], "Odin.1.0.dsdl", S(["ref", "familiars.norse.Huginn", 1, 0])), F(["w1", "familiars"], ["norse"], "Huginn.1.0.dsdl", S())],
                           [0], [["w0", "gods"]], [["w1", "familiars"]]))
             out.append(fl([F(A, ["alpha"], "A.1.0.dsdl", S()), F(["w1", "alpha"], ["alpha"], "B.1.0.dsdl", S())], [1], [A, ["w1", "alpha"]]))
+            # two trees of one root namespace name with a file at the same relative path: a relative target that exists in the
+            # working directory designates that file, whichever tree is listed first
+            W, N = ["w0", "vnd"], ["w1", "vnd"]
+            g = [F(W, ["nav"], "6200.Fix.1.0.dsdl", S(["prim", 16])), F(N, ["nav"], "6200.Fix.1.0.dsdl", S(["prim", 8]))]
+            for roots in ([N, W], [W, N]):
+                c = fl(g, [0], roots, variants=("dup", "linkroots"))
+                for cwd in (["w0"], ["w1"], [], W):
+                    c["variants"].append({"mix": 1, "cwd": cwd, "targets": {"form": "list", "items": [[0, "rel", "str"]]},
+                                          "roots": {"form": "list", "items": [[r, "abs", "str"] for r in roots]}, "lookups": {"form": "none", "items": []}})
+                out.append(c)
             for fn in LENIENT:
                 out.append(ns([F(A, [], fn, S())], variants=[]))
             for fn in MALFORMED:
@@ -1834,6 +2375,36 @@ class NsSuite(common.Suite):
                         F(B, [], "6201.E.1.0.dsdl", S()), F(B, [], "E.1.0.dsdl", mk_text([], ["extent", 64])), F(B, [], "D.1.0.uavcan", S())]:
                 c = json.loads(json.dumps(base))
                 c["perturb"] = {"idx": 2, "file": new}
+                out.append(c)
+            # every state of badness of a text, the unloadable ones included
+            U = lambda k: {"g": True, "gk": 0, "u": k, "secs": [{"stmts": [], "mode": ["sealed"]}]}  # noqa: E731
+            bad = [mk_text([], ["sealed"], g=True), U(1), U(2), U(3), S(["bad", 0]), S(["bad", 2]), S(["print", 9]), mk_text([], ["none"]), S(["ref", "nowhere.Missing", 1, 0]),
+                   mk_text([], ["sealed"], {"stmts": [], "mode": ["sealed"]})]
+            # a definition whose name differs from a written reference by letter case only: the reference is an error because of
+            # the file NAME; the text of that file is outside the closure (lookup directory / the target's own root, absolute / relative)
+            for t in bad:
+                c = ns([F(A, [], "User.1.0.dsdl", S(["ref", "beta.widget", 1, 0])), F(B, [], "Widget.1.0.dsdl", S(["prim", 8])), F(B, [], "Zed.1.0.dsdl", S())], lookups=[B], variants=[])
+                c["perturb"] = {"idx": 1, "file": F(B, [], "Widget.1.0.dsdl", t)}
+                out.append(c)
+                c = fl([F(A, ["x"], "User.1.0.dsdl", S(["ref", "helper", 1, 0])), F(A, ["x"], "Helper.1.0.dsdl", S(["prim", 8]))], [0], [A], variants=())
+                c["perturb"] = {"idx": 1, "file": F(A, ["x"], "Helper.1.0.dsdl", t)}
+                out.append(c)
+                c = fl([F(A, [], "User.1.0.dsdl", S(["ref", "ALPHA.x.Helper", 1, 0])), F(["w1", "ALPHA"], ["X"], "Helper.1.0.dsdl", S(["prim", 8]))], [0], [A], [["w1", "ALPHA"]], variants=())
+                c["perturb"] = {"idx": 1, "file": F(["w1", "ALPHA"], ["X"], "Helper.1.0.dsdl", t)}
+                out.append(c)
+            # a NAMESAKE of a target that nobody refers to (a port-ID added, the other extension, a second directory of the same
+            # root namespace name), a sibling version, the same port-ID - in every state of badness
+            W1 = ["w1", "alpha"]
+            for t in bad + [S(["prim", 8])]:
+                for new in (F(A, [], "6300.Report.1.0.dsdl", t), F(A, [], "Report.1.0.uavcan", t), F(W1, [], "Report.1.0.dsdl", t), F(A, [], "Report.1.1.dsdl", t),
+                            F(A, [], "Report.1.10.dsdl", t), F(W1, ["x"], "6200.Other.2.0.dsdl", t)):
+                    c = fl([F(A, [], "6200.Report.1.0.dsdl" if new["fname"].startswith("Report.1.1") or "Other" in new["fname"] else "Report.1.0.dsdl", S(["prim", 16])),
+                            F(W1, ["x"], "Other.2.0.dsdl", S())], [0], [A, W1], variants=())
+                    c["perturb"] = {"idx": 1, "file": new}
+                    out.append(c)
+                c = ns([F(A, [], "Report.1.0.dsdl", S(["prim", 16])), F(W1, ["x"], "Other.2.0.dsdl", S())], lookups=[W1], variants=[])
+                c["perturb"] = {"idx": 1, "file": F(W1, [], "7000.Report.1.0.dsdl", t)}
+                c["call"]["allow_unreg"] = True
                 out.append(c)
         return out
 
@@ -1883,16 +2454,17 @@ class NsSuite(common.Suite):
         if "out" not in impl:
             return None
         allf = list(case["files"]) + ([case["perturb"]["file"]] if case.get("perturb") else [])
-        if any(lenient_only(f["fname"]) for f in allf):
-            return None  # int() leniency of file-name numerals (finding F10) is not mirrored by the model
+        # (names that only int() would take - former finding F10, repaired by a482d00 - are compared like every other name)
         for k in ("out", "out2"):
             if k in model or k in impl:
                 mo, io = model.get(k), impl.get(k)
                 if mo is not None and mo.get("res") == "dupkey":
                     continue
                 a, b = self.project(io, prop), self.project(mo, prop)
-                if a is not None and b is not None and a.get("res") == "internal" and b.get("res") == "internal":
-                    continue  # a service type used as a field (finding F11, not of this group): only the class is compared
+                if a is not None and b is not None and b.get("res") == "internal" and a.get("res") in ("internal", "invalid") \
+                        and (mo.get("soft_cls") == "serviceField" or a.get("res") == "internal"):
+                    continue  # a service type used as a field (finding F11, not of this group; since /repo 1557772 the library rejects
+                    #           it with InvalidTypeError, the model still answers Err.serviceField): the oracle leaves it unjudged too
                 if a != b:
                     return "%s: impl=%s model=%s" % (k, _s(a, 500), _s(b, 500))
         return None
@@ -2023,6 +2595,8 @@ class NsSuite(common.Suite):
         i = p["idx"]
         if i in exp["closure"] or i in exp2["closure"] or i in exp["targets"] or i in exp2["targets"]:
             return None
+        if (i in exp["near"] or i in exp2["near"]) and file_rel(case["files"][i]) != file_rel(p["file"]):
+            return None  # the NAME of a definition that a reference misses by letter case only is what makes the reference an error
         call = case["call"]
         if call["fn"] == "ns" and (case["files"][i]["dir"] == call["root"] or p["file"]["dir"] == call["root"]):
             return None
@@ -2146,6 +2720,14 @@ class NsSuite(common.Suite):
         nested = [(a, b) for a in dirs for b in dirs if len(b) > len(a) and b[: len(a)] == a]
         if nested:
             yield "dirs:nested-pair"
+        for a, b in nested:
+            if a[-1].lower() == b[-1].lower():
+                yield "dirs:nested-namesake-pair:%d-level%s-down" % (min(len(b) - len(a), 3), "" if len(b) - len(a) == 1 else "s")
+                yield "dirs:nested-namesake-pair:" + ("same-spelling" if a[-1] == b[-1] else "other-letter-case")
+                yield "dirs:nested-namesake-pair:collisions-" + ("allowed" if call.get("allow_collision", True) else "disallowed")
+                yield "dirs:nested-namesake-pair:" + ("root+lookup" if call["fn"] == "ns" and list(call["root"]) in (a, b) else "lookup+lookup" if call["fn"] == "ns" else "read_files")
+        if any(a != b and a[-1].lower() == b[-1].lower() and not prefix_related(a, b) for a in dirs for b in dirs):
+            yield "dirs:unrelated-namesakes:collisions-" + ("allowed" if call.get("allow_collision", True) else "disallowed")
         look = [(a, b) for a in dirs for b in dirs if a != b and a[:-1] == b[:-1] and b[-1].startswith(a[-1])]
         for a, b in look:
             yield "dirs:sibling-name-extends-name:" + ("below-slash" if b[-1][len(a[-1])] < "/" else "above-slash")
@@ -2185,8 +2767,26 @@ class NsSuite(common.Suite):
                 yield "spelling:" + v
         if case.get("hashseeds"):
             yield "hashseed-subprocess"
+        yield from twin_features(case)
+        yield from version_features(case)
+        if call["fn"] == "files":
+            rn = [r[-1] for r in call["roots"]]
+            if any(c in rn for i in call["targets"] for c in case["files"][i]["sub"]):
+                yield "files:root-name-is-also-a-namespace-nested-in-a-target's-root" + (":roots-by-bare-name" if "names" in case.get("variants", []) else "")
+            if len(set(rn)) < len(rn):
+                yield "files:several-roots-of-one-name"
+                have = {file_rel(f) for f in case["files"]}
+                for i in call["targets"]:
+                    f = case["files"][i]
+                    twin_roots = [r for r in call["roots"] if r != f["dir"] and r[-1] == f["dir"][-1] and "/".join(r + f["sub"] + [f["fname"]]) in have]
+                    if twin_roots:
+                        yield "files:target's-relative-path-also-exists-in-another-root-of-the-same-name"
+                        for v in case.get("variants", []):
+                            if isinstance(v, dict) and v.get("cwd") == f["dir"][:-1] and any(it[0] == i and it[1] == "rel" for it in v.get("targets", {}).get("items", [])):
+                                yield "files:...and-the-target-is-spelled-relative-to-the-directory-above-its-root"
         if case.get("perturb"):
             yield "perturb:" + ("rename" if case["perturb"]["file"]["fname"] != case["files"][case["perturb"]["idx"]]["fname"] else "text")
+            yield from perturb_features(case)
             if "out2" in impl and impl["out2"] == impl["out"]:
                 yield "perturb:unchanged"
 
